@@ -9,7 +9,10 @@ Open Scope Z_scope.
 Open Scope string_scope.
 
 Inductive case :=
-  | KSeq (t0 : tree) (ops : list (nat * op)).
+  | KSeq (t0 : tree) (ops : list (nat * op))
+  (* a case whose values the model cannot express (inf, -0.0, 1e300 ...): run on the
+     implementation and judged by the oracle only *)
+  | KSkip.
 
 (** history of a leaf of a generated tree (only loadable entries are generated) *)
 Definition yparam (entries : list (Z * yentry Z)) : hist Z :=
@@ -56,4 +59,5 @@ Definition oans (a : ans) : obs :=
 Definition run (c : case) : obs :=
   match c with
   | KSeq t0 ops => OL (map oans (wrun Fixed (init t0) ops))
+  | KSkip => ONone
   end.
